@@ -3,6 +3,7 @@ package main
 import (
 	"bufio"
 	"context"
+	"database/sql"
 	"encoding/json"
 	"errors"
 	"flag"
@@ -22,6 +23,7 @@ import (
 	wapi "github.com/transparency-dev/witness/api"
 	wclient "github.com/transparency-dev/witness/client/http"
 	ihttp "github.com/transparency-dev/witness/internal/http"
+	psql "github.com/transparency-dev/witness/internal/persistence/sql"
 	"github.com/transparency-dev/witness/verifharness/internal/ref"
 	"github.com/transparency-dev/witness/verifharness/internal/world"
 )
@@ -78,6 +80,18 @@ type oddEvent struct {
 	Served string `json:"served"` // abstract log whose stored bytes were served ("" none, "?" other bytes)
 	Client string `json:"client"` // bundled client on the same id: bytes | notexist | error
 	Path   string `json:"path"`
+}
+
+// bgRead is a read running in the background of a sequential run.
+type bgRead struct {
+	log          string
+	k            int
+	done         chan struct{}
+	reached      <-chan struct{}
+	body         []byte
+	status       int
+	err          error
+	afterUpdates int // number of updates that had returned when the read was started
 }
 
 type seqHeader struct {
@@ -199,7 +213,25 @@ func seqMain(args []string) error {
 		go func() {
 			defer wg.Done()
 			for r := range runs {
-				ev, err := execSeqRun(base, r, *storeKind, *embed, *seed, *dir, *useHTTP, *withFaults)
+				type res struct {
+					ev  []any
+					err error
+				}
+				rc := make(chan res, 1)
+				go func() {
+					ev, err := execSeqRun(base, r, *storeKind, *embed, *seed, *dir, *useHTTP, *withFaults)
+					rc <- res{ev, err}
+				}()
+				var ev []any
+				var err error
+				select {
+				case x := <-rc:
+					ev, err = x.ev, x.err
+				case <-time.After(5 * time.Minute):
+					// never wait for ever: the check reports this as inconclusive (steps that may legitimately hang have their own deadlines)
+					fmt.Fprintf(os.Stderr, "run %s did not finish within 5 minutes\n", r.ID)
+					os.Exit(4)
+				}
 				if err == nil {
 					err = tw.writeRun(ev)
 				}
@@ -285,12 +317,26 @@ func execPhase(base *world.World, tag string, phase int, steps []seqStep, storeK
 	if err != nil {
 		return nil, err
 	}
-	defer st.close()
+	defer func() { st.close() }()
 	var fl *faultLSP
 	witP := st.p
 	if withFaults {
 		fl = newFaultLSP(st.p)
 		witP = fl
+	}
+	// background reads (op bgget / release): a read whose return from storage is held back while other requests are served
+	var holder *faultLSP
+	var bg []*bgRead
+	var releaseHeld func()
+	for _, s := range r.Steps {
+		if s.Op == "bgget" && fl == nil {
+			holder = newFaultLSP(st.p)
+			witP = holder
+			break
+		}
+	}
+	if fl != nil {
+		holder = fl
 	}
 	wit, err := newWitness(w, witP)
 	if err != nil {
@@ -302,11 +348,30 @@ func execPhase(base *world.World, tag string, phase int, steps []seqStep, storeK
 		rt := mux.NewRouter()
 		ihttp.NewServer(wit).RegisterHandlers(rt)
 		srv = httptest.NewServer(rt)
-		defer srv.Close()
+		defer func() { srv.Close() }()
 		u, _ := url.Parse(srv.URL)
 		cl = wclient.NewWitness(u, srv.Client())
 	}
+	// foreground HTTP reads while a background read is held back: if the answer does not come (the read path made this request wait for
+	// the held one), the held read is released and the request repeated; what it then answers is judged like any other read
+	fgGet := func(u string) (*http.Response, error) {
+		if releaseHeld == nil {
+			return srv.Client().Get(u)
+		}
+		c2 := *srv.Client()
+		c2.Timeout = 1500 * time.Millisecond
+		resp, err := c2.Get(u)
+		if err == nil {
+			return resp, nil
+		}
+		if releaseHeld != nil {
+			releaseHeld()
+			releaseHeld = nil
+		}
+		return srv.Client().Get(u)
+	}
 	events := []any{resetEvent{E: "reset", Run: tag, Store: storeKind, Embed: embed, Phase: phase}}
+	nUpdates := 0
 	pre := takeSnapshot(w, st.p)
 	ctx := context.Background()
 	for k, s := range r.Steps {
@@ -326,7 +391,139 @@ func execPhase(base *world.World, tag string, phase int, steps []seqStep, storeK
 			s.Op, s.Req = "update", &rq
 		}
 		switch s.Op {
+		case "migrate":
+			// the file the witness runs on is replaced by one with the same content written the way the RELEASE under verification writes it
+			// (schema and parameter binding of internal/persistence/sql at the pinned commit), and the witness is restarted on it: an
+			// upgrade to the tree's code over existing data. Nothing observable may change.
+			events = append(events, skipEvent{E: "skip", Run: tag, K: k})
+			if st.path == "" || st.kind != "sqlfile" || fl != nil || holder != nil {
+				continue
+			}
+			snap := takeSnapshot(w, st.p)
+			st.db.Close()
+			os.Remove(st.path)
+			os.Remove(st.path + "-journal")
+			raw, err := sql.Open("sqlite3", st.path)
+			if err != nil {
+				return nil, err
+			}
+			if _, err := raw.Exec(pinnedSchema); err != nil {
+				return nil, err
+			}
+			for name, b := range snap.raw {
+				if _, err := raw.Exec("INSERT OR REPLACE INTO chkpts (logID, chkpt, range) VALUES (?, ?, NULL)", w.Logs[name].ID, b); err != nil {
+					return nil, err
+				}
+			}
+			raw.Close()
+			db, err := sql.Open("sqlite3", st.path)
+			if err != nil {
+				return nil, err
+			}
+			db.SetMaxOpenConns(1)
+			path := st.path
+			st.db, st.p = db, psql.NewPersistence(db)
+			st.close = func() { db.Close(); os.Remove(path); os.Remove(path + "-journal") }
+			if wit, err = newWitness(w, st.p); err != nil {
+				return nil, err
+			}
+			if useHTTP {
+				srv.Close()
+				rt := mux.NewRouter()
+				ihttp.NewServer(wit).RegisterHandlers(rt)
+				srv = httptest.NewServer(rt)
+				u, _ := url.Parse(srv.URL)
+				cl = wclient.NewWitness(u, srv.Client())
+			}
+			continue
+		case "bgget":
+			// start a read in the background; with Hold set, its storage read is let through and its return is held until "release"
+			l, ok := w.Logs[s.Log]
+			if !ok || holder == nil {
+				continue
+			}
+			b := &bgRead{log: s.Log, k: k, done: make(chan struct{}), afterUpdates: nUpdates}
+			if s.Hold != "" && releaseHeld == nil {
+				reached, rel := holder.armHold("ReadGetLatest>")
+				releaseHeld = rel
+				b.reached = reached
+			}
+			go func() {
+				defer close(b.done)
+				if useHTTP {
+					resp, err := srv.Client().Get(srv.URL + fmt.Sprintf(wapi.HTTPGetCheckpoint, l.ID))
+					if err != nil {
+						b.err = err
+						return
+					}
+					b.body, _ = io.ReadAll(resp.Body)
+					resp.Body.Close()
+					b.status = resp.StatusCode
+					if resp.StatusCode != 200 {
+						b.body = nil
+					}
+					return
+				}
+				b.body, b.err = wit.GetCheckpoint(l.ID)
+			}()
+			if b.reached != nil {
+				select {
+				case <-b.reached:
+				case <-b.done:
+					// the read was answered without going to storage (something in front of it had the answer): nothing to hold back
+					releaseHeld()
+					releaseHeld = nil
+				case <-time.After(5 * time.Second):
+					releaseHeld()
+					releaseHeld = nil
+				}
+			} else {
+				// give it the time to reach storage or whatever it waits for (it may legitimately be waiting for the held read)
+				select {
+				case <-b.done:
+				case <-time.After(100 * time.Millisecond):
+				}
+			}
+			bg = append(bg, b)
+			continue
+		case "release":
+			if releaseHeld != nil {
+				releaseHeld()
+				releaseHeld = nil
+			}
+			for _, b := range bg {
+				select {
+				case <-b.done:
+				case <-time.After(10 * time.Second):
+					b.err = fmt.Errorf("background read did not return")
+				}
+				// a read started after the last update had returned must see exactly what is stored now; an earlier one overlapped it
+				if b.afterUpdates != nUpdates {
+					continue
+				}
+				l := w.Logs[b.log]
+				ev := getEvent{E: "get", Run: tag, K: b.k, Log: b.log, Val: world.CP{None: true}, FRun: false, Fired: []string{}, Status: b.status}
+				stored, has := pre.raw[b.log]
+				switch {
+				case b.err != nil && !isNotFound(b.err):
+					ev.Client, ev.Failed = "error", true
+				case b.body != nil:
+					ev.Client = "bytes"
+					ev.Val = w.Project(l, b.body).CP
+					ev.Exact = has && string(stored) == string(b.body)
+				default:
+					ev.Client = "notexist"
+					ev.Exact = !has
+				}
+				if useHTTP && ev.Client == "bytes" && ev.Status == 0 {
+					ev.Status = 200
+				}
+				events = append(events, ev)
+			}
+			bg = nil
+			continue
 		case "update":
+			nUpdates++
 			if s.Wait {
 				now := time.Now()
 				time.Sleep(now.Truncate(time.Second).Add(time.Second + 5*time.Millisecond).Sub(now))
@@ -359,6 +556,7 @@ func execPhase(base *world.World, tag string, phase int, steps []seqStep, storeK
 			var uerr error
 			hung := false
 			heldNote := ""
+			panicked := false
 			if fl != nil && s.Hold != "" {
 				cctx, cancel := context.WithCancel(ctx)
 				reached, release := fl.armHold(s.Hold)
@@ -400,8 +598,13 @@ func execPhase(base *world.World, tag string, phase int, steps []seqStep, storeK
 			} else if fl != nil {
 				done := make(chan struct{})
 				go func() {
+					defer func() {
+						if r := recover(); r != nil {
+							ret, uerr, panicked = nil, fmt.Errorf("recovered: %v", r), true
+						}
+						close(done)
+					}()
 					ret, uerr = wit.Update(ctx, c.LogID, c.OldSize, c.CP, c.Proof)
-					close(done)
 				}()
 				select {
 				case <-done:
@@ -442,7 +645,11 @@ func execPhase(base *world.World, tag string, phase int, steps []seqStep, storeK
 				return append(events, ab), nil
 			}
 			post := takeSnapshot(w, st.p)
-			ev := updEvent{E: "update", Run: tag, K: k, Log: s.Log, Req: *s.Req, V: verdict(uerr),
+			vd := verdict(uerr)
+			if panicked {
+				vd = "Panic"
+			}
+			ev := updEvent{E: "update", Run: tag, K: k, Log: s.Log, Req: *s.Req, V: vd,
 				FRun: fl != nil, Fired: nonNil(fired), Calls: nonNil(calls), OpenTx: openTx, InUse: inUse,
 				Stored: project(w, post), LogList: abstractLogs(w, post.logs), Unchanged: pre.equal(post),
 				RefOK: "na", Ctr: map[string]Ctr{},
@@ -510,7 +717,7 @@ func execPhase(base *world.World, tag string, phase int, steps []seqStep, storeK
 			}
 			var body []byte
 			if useHTTP {
-				resp, err := srv.Client().Get(srv.URL + fmt.Sprintf(wapi.HTTPGetCheckpoint, id))
+				resp, err := fgGet(srv.URL + fmt.Sprintf(wapi.HTTPGetCheckpoint, id))
 				if err != nil {
 					return nil, err
 				}
@@ -572,7 +779,7 @@ func execPhase(base *world.World, tag string, phase int, steps []seqStep, storeK
 			ev := getLogsEvent{E: "getlogs", Run: tag, K: k}
 			var ids []string
 			if useHTTP {
-				resp, err := srv.Client().Get(srv.URL + wapi.HTTPGetLogs)
+				resp, err := fgGet(srv.URL + wapi.HTTPGetLogs)
 				if err != nil {
 					return nil, err
 				}
